@@ -45,13 +45,25 @@ def documents():
         yield "type-arg", "pipeline:\n  - __type__: cobald.daemon.plugins.__yaml_tag_test\n    arg: %s\n" % t
 
 
+def merge_key_documents():
+    """KNOWN FINDING C18-merge-key-value-tag-is-ignored: PyYAML's SafeConstructor.flatten_mapping merges the value of a `<<` key by
+    node KIND and never dispatches its tag, so a python/* or unregistered tag on a mapping that is the value (or an item of the
+    sequence value) of a merge key is accepted; nothing is instantiated.  These documents are probed separately: they must stay
+    harmless (no canary), and they are reported as the known finding as long as they are accepted."""
+    for t in ("!!python/object/apply:bounded.c18_corpus.fire", "!!python/object:bounded.c18_corpus.Victim", "!!python/name:bounded.c18_corpus.fire", "!not_a_registered_plugin"):
+        yield "merge-value", "pipeline:\n  - !__yaml_tag_test []\nextra: {<<: %s {x: 1}, y: 2}\n" % t
+        yield "merge-sequence-item", "pipeline:\n  - !__yaml_tag_test []\nextra: {<<: [%s {x: 1}, {y: 2}]}\n" % t
+        yield "merge-in-plugin-arguments", "pipeline:\n  - !__yaml_tag_test\n    <<: %s {payload: 1}\n" % t
+
+
 def run(E, tier):
     from cobald.daemon.core.config import load
 
     evals = fails = 0
     failures = []
+    known = []
     marker_mod = "bounded.c18_victim_module"
-    for pos, doc in documents():
+    for pos, doc in list(documents()) + [("KNOWN:" + p, d) for p, d in merge_key_documents()]:
         evals += 1
         del CANARY[:]
         sys.modules.pop(marker_mod, None)
@@ -67,8 +79,11 @@ def run(E, tier):
                 outcome = type(ex).__name__
         finally:
             os.unlink(path)
+        if pos.startswith("KNOWN:") and outcome == "accepted" and not CANARY and marker_mod not in sys.modules:
+            known.append({"position": pos[6:], "document": doc})        # accepted but harmless: the recorded finding, not a new violation
+            continue
         if outcome == "accepted" or CANARY or marker_mod in sys.modules:
             fails += 1
             failures.append({"position": pos, "document": doc, "outcome": outcome, "canary": repr(CANARY)[:100]})
-    return [{"function": "cobald.daemon.core.config:load (probe of the assumed PyYAML safe-loader contract)", "tool": "corpus of python/* and unregistered-tag documents through the real load(), canaries",
+    return [{"known_finding": {"id": "C18-merge-key-value-tag-is-ignored", "hits": len(known), "example": known[0] if known else None},             "function": "cobald.daemon.core.config:load (probe of the assumed PyYAML safe-loader contract)", "tool": "corpus of python/* and unregistered-tag documents through the real load(), canaries",
              "bound": "%d documents (%d tags x 5 positions)" % (evals, len(TAGS)), "evaluations": evals, "failures": failures[:5], "n_failures": fails}]
